@@ -39,8 +39,8 @@ CHECKS = {
  "C13": (A, "corpus x all 128 option configurations, equality classes",
          "Every corpus document is executed under all 16 flag sets x URL nil/set x SkipPagination x 2 algorithms; only the documented fields may vary.",
          "Corpus is a bounded docspace; log output itself is not inspected."),
- "C14": (A, "exhaustive enumeration of presence patterns of the three markup sources x block orders x opt-out, reference model + composition check",
-         "Every presence pattern within the bound is executed; MarkupInfo must equal the statement's precedence model.",
+ "C14": (A, "exhaustive enumeration of feature toggles of the three markup sources x block orders x opt-out, direct token model + composition check (4 executions per case)",
+         "Every toggle set within the bound is executed; each scalar field must hold the token of the highest-precedence source whose markup offers it and equal the first non-empty value of the sources distilled alone; Article/Images wholesale; opt-out empties everything.",
          "Field alphabets as listed in evidence."),
  "C15": (A, "all <title> strings up to 6/7 symbols x heading/markup variants",
          "Every title string over the separator alphabet is executed; Title must obey the four clauses of the statement.",
@@ -63,8 +63,8 @@ CHECKS = {
  "C10": (B, "exhaustive call histories (<= 3 calls) x documents x options x entry points with tree snapshots and a write monitor on caller-owned nodes",
          "Every history within the bound is executed on one shared tree/Options; structural snapshots must be identical and no hooked write may touch a caller-owned node.",
          "Writes through aliases are seen only by the snapshot comparison."),
- "C11": (B, "DFS over map-iteration-order choice points (<= 1/2 deviations), call histories (<= 3), and entry-point equivalence",
-         "Every execution with <= d non-default map orders must give the identical result; every history must reproduce solo results; Reader/File/Apply must agree.",
+ "C11": (B, "DFS over map-iteration-order choice points (<= 1/2 deviations); exhaustive call histories (<= 3 calls, four menus) in fresh processes; warm-vs-fresh-process differential over the corpora; in-place URL reuse; entry-point equivalence and repeatability",
+         "Every execution with <= d non-default map orders must give the identical result; every history over the menus must reproduce the results of the same calls alone in a fresh process; every corpus document (and an evenly spaced subset of the cases of five other checks) must give the same result in a long-lived worker and in a fresh process; Reader/File/Apply must agree and repeat. Intermittent disagreement is reported, since determinism is the property.",
          "Only range-over-map sites rewritten by the instrumenter are controlled."),
  "C12": (B, "stateless model checking of 2-3 concurrent Apply calls under a cooperative scheduler (preemption-bounded at hook granularity), happens-before race monitor, plus a separate free-running -race pass",
          "All schedules within the preemption bound are executed on the real code; each thread's result must equal its solo result and no conflicting unsynchronised access pair may occur.",
